@@ -240,9 +240,10 @@ def rule_blank_buffer(ctx):
     o = db.fn("output_text", file=OUT)
     tabs = [n for n in o.all_nodes() if n["k"] == "call" and n.get("c") == "add_char" and n.get("a") and (o.nodes.get(n["a"][0]) or {}).get("k") == "chr" and o.nodes[n["a"][0]]["v"] == 9]
     r.require(len(tabs) >= 1, "output_text: no literal add_char(TAB) found (force_tab_after_define)")
+    from ..flow import resolved_conds
     for n in tabs:
         r.seen()
-        cs = _conds(o, n)
+        cs = resolved_conds(o, ReachingDefs(o, db), o.nblock[n["i"]])
         r.check(("pc->GetNext(ALL)->IsNewline()", False) in cs or ("!pc->GetNext(ALL)->IsNewline()", True) in cs or ("pc->GetNext()->IsNewline()", False) in cs,
                 "output_text/literal-tab-not-at-line-end", db.loc(o, n), "output_text() writes a tab without having excluded that the line ends behind it: %s" % cs[-3:])
     raw = [(f, n) for f in db.funcs.values() if f.file.startswith("src/") for n in f.all_nodes()
